@@ -57,6 +57,37 @@ def qDelegation (w : World) (del : Acct) (v : ValId) (d : Denom) : Except Err (D
         | .ok b => .ok (dl.shares, b)
         | .error e => .error e
 
+/-- one reported delegation: (validator, denom, shares, balance) -/
+abbrev DelegationRow := ValId × Denom × Dec × Int
+
+/-- the row of one stored delegation, as the three list queries compute it: the asset must still be whitelisted,
+    the validator must exist in x/staking, the balance is `GetDelegationTokens` -/
+def delegationRow (w : World) (dl : Delegation) : Except Err DelegationRow :=
+  match getAsset w dl.denom with
+  | none => .error (.err "unknown_asset")
+  | some a =>
+    match AL.get w.staking.vals dl.val with
+    | none => .error (.err "no_validator")
+    | some _ =>
+      let info := (AL.get w.vals dl.val).getD ValInfo.empty
+      match delegationTokensWithShares dl.shares info a with
+      | .ok b => .ok (dl.val, dl.denom, dl.shares, b)
+      | .error e => .error e
+
+/-- `AlliancesDelegation(delegator)`: prefix scan of the delegator's records; one failing record fails the query -/
+def qDelegationsOf (w : World) (del : Acct) : Except Err (List DelegationRow) :=
+  (w.dels.filter fun p => p.1.1 == del).mapM fun p => delegationRow w p.2
+
+/-- `AlliancesDelegationByValidator(delegator, validator)` -/
+def qDelegationsOfVal (w : World) (del : Acct) (v : ValId) : Except Err (List DelegationRow) :=
+  match AL.get w.staking.vals v with
+  | none => .error (.err "no_validator")
+  | some _ => (w.dels.filter fun p => p.1.1 == del && p.1.2.1 == v).mapM fun p => delegationRow w p.2
+
+/-- `AllAlliancesDelegations` -/
+def qAllDelegations (w : World) : Except Err (List (Acct × DelegationRow)) :=
+  w.dels.mapM fun p => (delegationRow w p.2).map fun r => (p.2.del, r)
+
 /-- contract binding `GetDelegation`: the balance only; a MISSING delegation is an error here (the gRPC query reports
     zero), the validator is looked up after the asset -/
 def bDelegation (w : World) (del : Acct) (v : ValId) (d : Denom) : Except Err Int :=
